@@ -78,7 +78,10 @@ __CPROVER_ensures(model_last_map >= NLI(p) || (LI(p)[model_last_map].first == IP
 /* ... and "none" (line -1) is reported only if no entry (ghost index) is recorded for it */
 __CPROVER_ensures(model_last_map < NLI(p) || (*out_line == -1 && !(model_g_map < NLI(p) && LI(p)[model_g_map].first == IP(p) - 1))) /*@C06*/
 /* before execution starts / after reset (ip = 0): none, because table keys are code positions (>= 0) */
-__CPROVER_ensures(IP(p) != 0 || *out_line == -1 || (model_last_map < NLI(p) && LI(p)[model_last_map].first < 0)) /*@C06,C17*/;
+__CPROVER_ensures(IP(p) != 0 || *out_line == -1 || (model_last_map < NLI(p) && LI(p)[model_last_map].first < 0)) /*@C06,C17*/
+/* reachability of the cases (each must FAIL) */
+__CPROVER_ensures(model_last_map >= NLI(p)) /*@CANARY*/
+__CPROVER_ensures(model_last_map < NLI(p)) /*@CANARY*/;
 
 /* ------------------------------------------------------------------ small accessors */
 void c_setSteppingMode(void *p, _Bool mode)
@@ -162,7 +165,13 @@ __CPROVER_ensures(!__CPROVER_return_value || !value || (model_last_set < NEN(p) 
 __CPROVER_ensures(!__CPROVER_return_value || value || !(model_g_set < NEN(p) && BPEQ(EN(p)[model_g_set], file_id, line))) /*@C06*/
 __CPROVER_ensures(!__CPROVER_return_value || g_e >= OLD(NEN(p)) || (ge_file == file_id && ge_line == line) ||
                   (g_e < NEN(p) && BPEQ(EN(p)[g_e], ge_file, ge_line)) ||
-                  (model_last_set < NEN(p) && BPEQ(EN(p)[model_last_set], ge_file, ge_line))) /*@C06*/;
+                  (model_last_set < NEN(p) && BPEQ(EN(p)[model_last_set], ge_file, ge_line))) /*@C06*/
+/* reachability of the cases (each must FAIL) */
+__CPROVER_ensures(__CPROVER_return_value) /*@CANARY*/
+__CPROVER_ensures(!__CPROVER_return_value) /*@CANARY*/
+__CPROVER_ensures(!__CPROVER_return_value || !value) /*@CANARY*/
+__CPROVER_ensures(!__CPROVER_return_value || value) /*@CANARY*/
+__CPROVER_ensures(!__CPROVER_return_value || g_s >= SITES(p, g_w)._n) /*@CANARY*/;
 
 #ifdef SPEC_CHECKS_OFF
 #pragma CPROVER check pop
